@@ -172,6 +172,16 @@ pub fn expand_templates(
     // Find and do expansions
     let mut toplevels: Vec<SExpr> = toplevel_exprs
         .into_iter()
+        // The deftemplate items have been read into `templates` above and nothing later in the
+        // parser looks at them. Expanding inside their bodies would run nested template-expands
+        // and their if-* conditionals on the unsubstituted `$parameter` text, which can reject a
+        // configuration whose actual expansions are all valid.
+        .filter(|tl| {
+            !matches!(
+                tl.t.first().and_then(|expr| expr.atom(None)),
+                Some("deftemplate")
+            )
+        })
         .map(|tl| {
             SExpr::List(Spanned {
                 span: tl.span,
